@@ -1,15 +1,22 @@
 """C08 — storage reads return the last write to the same slot; no aliasing.
 
-Obligations: T-hashes, T-storeconsts, Props/C08.vo (theorems about Model/StorageModel.v over
-the regenerated Gen/GenHashes.v + Gen/GenStoreConsts.v), lint.
+Obligations: T-hashes, T-storeconsts, T-storeaxioms, Props/C08.vo (theorems about
+Model/StorageModel.v over the regenerated Gen/GenHashes.v + Gen/GenStoreConsts.v +
+Gen/GenStoreAxioms.v), lint.
 Ties:
   L1a  real SolidityStorage.get_key_structure / GenericStorage.decode on z3 terms generated
        from the Solidity layout grammar, under a real KeccakRegistry, vs the extracted model
        (structure exactly, keys by value under valuations);
   L1b  real OffsetMap vs model; real Exec.select with a scripted oracle vs model;
   L1c  fresh_transient_storage / run_message wiring;
+  L1d  the path side: sstore/sload sequences on a real Exec (real solver) vs the extracted
+       path-side model: which term every load returns (ZERO / value / Select over which array
+       at which key) and which storage axioms ex.path holds afterwards (array definitions,
+       per-index emptiness axioms), in order;
   L2   SSTORE/SLOAD/TSTORE/TLOAD programs run by the real SEVM (both storage layouts), the
-       returned load values evaluated per key valuation vs a flat dict.
+       returned load values evaluated per key valuation vs a flat dict -- under the all-zero
+       interpretation of the initial arrays AND under one that is non-zero wherever the path
+       has no emptiness axiom (every model of the path counts).
 Spec-vs-implementation legs (always run): pairwise no-alias / same-location recognition of
 the real decoders on every generated group (L1a), flat-dict comparison (L2).
 """
@@ -20,11 +27,12 @@ import time
 from multiprocessing import Pool
 
 from harness import c08_lib as L
+from harness import c08_paths as CP
 from harness import common
 from harness.common import Model
 
 PID = "C08"
-TRANSLATORS = ["T-hashes", "T-storeconsts"]
+TRANSLATORS = ["T-hashes", "T-storeconsts", "T-storeaxioms"]
 
 # Genuine defects of halmos reproduced by this check on the unchanged tree.  A failing input
 # whose `sig` matches one of these is printed as KNOWN-FINDING and does not fail the check.
@@ -37,11 +45,14 @@ ASSUMPTIONS = [
     "z3's simplify is modelled by its effect on the location grammar (constant folding under hashes, flattening/constant-summing of additions); normalize() is denotation-preserving and not modelled; both are exercised by the correspondence run only",
     "path.concretization.substitution is modelled as exactly the registered concrete hashes (f_sha3_N(const) -> hash)",
     "the extracted model and driver are faithful to the Coq definitions (extraction is trusted)",
+    "C08_path_load / C08_path_sequences quantify over every interpretation of the array terms that satisfies the storage axioms of the path; the other conditions of a real path (branch conditions, hash axioms) do not mention the storage arrays, so restricting attention to the storage axioms loses nothing -- this is checked on every L2 path by evaluating ALL its conditions under the adversarial interpretation",
+    "Exec.select's dict lookup of an array in ex.storages is modelled as a search of the definitions older than the current one (definitions only refer to older arrays: invariant pwf_st, proved preserved)",
 ]
 PARTIAL = ("no general decode-faithfulness theorem (C08_decode_faithful of the design): faithfulness is a hypothesis of C08_sequences, witnessed on a concrete family and checked by the tie; "
            "the generic layout's decoder is modelled and tied but has only refutation theorems; "
            "Exec.select's three tests are abstracted into one oracle call (tied by scripted-oracle runs of the real Exec.select); "
-           "load()'s chunk initialisation side effect is not modelled (pure default); symbolic initial storage is modelled (init) but not exercised by the L2 tie")
+           "load()'s chunk initialisation side effect is not modelled (pure default); symbolic initial storage is modelled (init, C08_path_has_model) and exercised by the L1d tie but not by the L2 tie; "
+           "the path-side model covers one account and one of persistent/transient storage at a time (ex.storages/ex.path are shared by all of them in the code)")
 
 
 # ----------------------------------------------------------------------------- L1a: decoders
@@ -385,6 +396,80 @@ def impl_select(case):
     return ["?", str(res)[:60]]
 
 
+# ----------------------------------------------------------------------------- L1d: path side
+
+def path_corpus():
+    """fixed cases first: the undecided store followed by a constant-key load (both layouts,
+    persistent and transient), a decided one, symbolic storage"""
+    m = lambda k: ("S512", k, ("K", 1))   # noqa: E731
+    a = lambda i: ("Add", [("S256", ("K", 3)), i])   # noqa: E731
+    out = []
+    for layout in ("solidity", "generic"):
+        for transient in (False, True):
+            out.append({"layout": layout, "sym": False, "transient": transient,
+                        "ops": [("store", m(("V", 0)), 101), ("load", m(("K", 5))), ("store", a(("V", 1)), 102), ("load", a(("K", 7))),
+                                ("load", m(("V", 0))), ("load", m(("V", 1)))]})
+        out.append({"layout": layout, "sym": False, "transient": False,
+                    "ops": [("store", m(("K", 5)), 101), ("load", m(("K", 7))), ("load", m(("K", 5))), ("store", ("K", 0), 102), ("load", ("K", 0)), ("load", ("K", 9))]})
+        out.append({"layout": layout, "sym": True, "transient": False,
+                    "ops": [("load", m(("K", 5))), ("store", m(("V", 0)), 101), ("load", m(("K", 5))), ("load", ("K", 9))]})
+    return out
+
+
+def l1d_worker(case):
+    try:
+        return CP.real_pathrun(case, L)
+    except Exception as e:  # noqa: BLE001
+        import traceback
+
+        return {"exc": f"{type(e).__name__}: {e}"[:300], "trace": traceback.format_exc()[-600:]}
+
+
+def run_l1d(rep, tier, r, exe):
+    n = 200 if tier == "quick" else 5000
+    cases = path_corpus() + [CP.gen_path_case(r) for _ in range(n)]
+    if tier == "quick":
+        reals = [l1d_worker(c) for c in cases]
+    else:
+        with Pool(min(16, os.cpu_count() or 4)) as pool_:
+            reals = pool_.map(l1d_worker, cases, chunksize=16)
+    nexc = 0
+    good = [(c, x) for c, x in zip(cases, reals) if "exc" not in x]
+    for c, x in zip(cases, reals):
+        if "exc" in x:
+            nexc += 1
+            rep.count("l1d_exception", x["exc"][:80])
+    if nexc > len(cases) // 4:
+        rep.fail("broken-tie", f"L1d tie: {nexc} of {len(cases)} store/load sequences raised on the real Exec, e.g. {[x['exc'] for x in reals if 'exc' in x][0]}",
+                 case={"path": next(c for c, x in zip(cases, reals) if "exc" in x)})
+    mres = Model(exe).parallel_batch([("c08_pathrun", x["model_input"]) for _, x in good]) if exe is not None else [None] * len(good)
+    nbad = 0
+    for (c, x), mo in zip(good, mres):
+        undecided = any(rr[0] == 2 for rr in x["results"])
+        rep.case({"path": c}, nontrivial=any(op[0] == "store" for op in c["ops"]) and len(x["results"]) >= 2)
+        rep.count("l1d_layout", c["layout"] + ("/symbolic" if c["sym"] else "") + ("/transient" if c.get("transient") else ""))
+        for rr in x["results"]:
+            rep.count("l1d_load_result", {0: "ZERO", 1: "stored value", 2: "Select(array, key)", 3: "initial scalar"}.get(rr[0], "other"))
+        rep.count("l1d_undecided_store_before_load", str(undecided))
+        for f in x["spec_fails"][:1]:
+            if "error" in f:
+                what = f"the terms SLOAD returns on the real Exec are not determined by its path (layout={c['layout']}, symbolic={c['sym']}, transient={c.get('transient')}): ops {c['ops']} under v={f.get('env')}: {f['error']}"
+            else:
+                what = (f"SLOAD on the real Exec returns a term whose value differs from the last write (layout={c['layout']}, symbolic={c['sym']}, transient={c.get('transient')}): "
+                        f"ops {c['ops']} under v={f.get('env')}: halmos {f.get('halmos')} vs EVM {f.get('flat')} (initial arrays: {f.get('initial_arrays')})")
+            report(rep, what, case={"path": c, **f}, sigs=known_sigs(set(), c["layout"]))
+        if mo is None:
+            continue
+        res, path = CP.parse_model_pathrun(mo)
+        if res != x["results"] or path != x["path"] or x["new_keys_at_runtime"]:
+            nbad += 1
+            if nbad <= 6:
+                what = "load results" if res != x["results"] else "storage axioms in ex.path" if path != x["path"] else "keys handed to select / put in axioms are not the decoded keys"
+                rep.fail("broken-tie", f"path-side model and implementation disagree on the {what} (layout={c['layout']}, symbolic={c['sym']}, transient={c.get('transient')}): ops {c['ops']}: implementation results {x['results']} path {x['path']}; model results {res} path {path}",
+                         case={"path": c, "implementation": {"results": x["results"], "path": x["path"]}, "model": {"results": res, "path": path}})
+    rep.coverage["l1d_cases"] = len(good)
+
+
 # ----------------------------------------------------------------------------- L1c: transient wiring
 
 def check_transient_wiring(rep):
@@ -614,26 +699,34 @@ def l2_worker(task):
         expect = L.ref_program(prog["ops"], env)
         holders = 0
         for p in paths:
-            ok, ev = p.holds(inp)
-            if ok is None:
-                res["errors"] += 1
-                continue
-            if not ok:
-                continue
-            holders += 1
-            if p.kind != "ok":
-                res["errors"] += 1
-                continue
-            try:
-                rb = p.ret_bytes(ev)
-            except Exception as e:  # noqa: BLE001
-                res["errors"] += 1
-                res.setdefault("eval_errors", []).append(f"{type(e).__name__}: {e}"[:160])
-                continue
-            got = [int.from_bytes(rb[32 * i:32 * i + 32], "big") for i in range(nload)]
-            res["evaluated"] += 1
-            if got != expect:
-                res["fails"].append({"env": env, "halmos": got, "flat": expect})
+            # every model of the path counts: the initial arrays of a non-symbolic account are
+            # uninterpreted, so besides the all-zero interpretation the path is evaluated with the
+            # initial arrays non-zero wherever no emptiness axiom of the path pins them to 0
+            for default in (0,) + CP.SENTINELS[:1]:
+                ok, ev = CP.holds_under(p, inp, default)
+                if ok is None:
+                    res["errors"] += 1
+                    continue
+                if not ok:
+                    continue
+                if default == 0:
+                    holders += 1
+                if p.kind != "ok":
+                    res["errors"] += 1
+                    continue
+                try:
+                    rb = p.ret_bytes(ev)
+                except Exception as e:  # noqa: BLE001
+                    res["errors"] += 1
+                    res.setdefault("eval_errors", []).append(f"{type(e).__name__}: {e}"[:160])
+                    continue
+                got = [int.from_bytes(rb[32 * i:32 * i + 32], "big") for i in range(nload)]
+                res["evaluated"] += 1
+                if default:
+                    res["adversarial"] = res.get("adversarial", 0) + 1
+                if got != expect:
+                    res["fails"].append({"env": env, "halmos": got, "flat": expect, "initial_arrays": "all zero" if default == 0 else
+                                         f"{hex(default)} at every index without an emptiness axiom in the path (a model of the path condition)"})
         if not holders and not flags["crashed"] and not any(k.startswith("stuck") for k in res["kinds"]):
             res["uncovered"] += 1
     return res
@@ -686,8 +779,8 @@ def run_l2(rep, tier, r):
             f = val["fails"][0]
             feats = program_features(prog, f["env"])
             sigs = known_sigs(feats, prog["layout"])
-            report(rep, f"SLOAD returns a value different from the last write (layout={prog['layout']}): program {prog['ops']} under args {f['env']}: halmos {[hex(x) for x in f['halmos']]} vs EVM {[hex(x) for x in f['flat']]}",
-                   case={"l2": prog, "env": f["env"], "halmos": f["halmos"], "flat": f["flat"], "code": val["code"]}, sigs=sigs)
+            report(rep, f"SLOAD returns a value different from the last write (layout={prog['layout']}): program {prog['ops']} under args {f['env']}: halmos {[hex(x) for x in f['halmos']]} vs EVM {[hex(x) for x in f['flat']]} (initial arrays: {f.get('initial_arrays')})",
+                   case={"l2": prog, "env": f["env"], "halmos": f["halmos"], "flat": f["flat"], "code": val["code"], "initial_arrays": f.get("initial_arrays")}, sigs=sigs)
             nfail += 1
     rep.coverage["l2_stats"] = stats
     rep.coverage["l2_seconds"] = round(time.time() - t0, 1)
@@ -719,6 +812,13 @@ def corpus_programs():
                   "nargs": 3, "layout": layout, "tags": ["narrowmap", "narrow-constant-key"], "name": "narrow-const", "envs": [[0, 0, 0]]})
         P.append({"ops": [("sstore", ("S256", ("S512", ("K", 2), ("K", 0))), ("K", 0x42)), ("sload", ("S512", ("S256", ("K", 2)), ("K", 0)))],
                   "nargs": 3, "layout": layout, "tags": ["map", "arr", "hash-valued-key"], "name": "hash-key"})
+        # a store whose key may or may not equal the constant key loaded next: select() stops at the
+        # undecided store, the value of the never-written entry comes from the path's axioms only
+        P.append({"ops": [("sstore", ("S512", ("V", 0), ("K", 1)), ("K", 7)), ("sload", ("S512", ("K", 5), ("K", 1))),
+                          ("sstore", ("Add", [("S256", ("K", 2)), ("V", 1)]), ("V", 2)), ("sload", ("Add", [("S256", ("K", 2)), ("K", 3)])),
+                          ("tstore", ("S512", ("V", 0), ("K", 1)), ("K", 9)), ("tload", ("S512", ("K", 5), ("K", 1)))],
+                  "nargs": 3, "layout": layout, "tags": ["map", "arr", "transient"], "name": "undecided-store-then-constant-load",
+                  "envs": [[5, 3, 8], [4, 2, 8]]})
         P.append({"ops": [("tstore", ("K", 1), ("K", 5)), ("sstore", ("K", 1), ("K", 6)), ("tload", ("K", 1)), ("sload", ("K", 1)),
                           ("tload", ("Add", [("S256", ("K", 2)), ("V", 0)]))],
                   "nargs": 3, "layout": layout, "tags": ["transient"], "name": "transient-separate"})
@@ -844,6 +944,9 @@ def run(rep, tier):
                      case={"select": c, "got": o}, sig={"feature": "select"})
 
     T["l1b"] = round(time.time() - t0, 1)
+    # ---- L1d: the path side (array terms returned, axioms left in ex.path)
+    run_l1d(rep, tier, r, exe)
+    T["l1d"] = round(time.time() - t0, 1)
     # ---- L2
     run_l2(rep, tier, r)
     T["l2"] = round(time.time() - t0, 1)
@@ -854,11 +957,11 @@ def run(rep, tier):
     rep.coverage["known_findings_local"] = {k: {"count": v["count"], "example": v["example"], "case": v["case"]} for k, v in _KNOWN_HITS.items()}
     rep.coverage["traces_validated_against_impl"] = len(groups) if model_res is not None else 0
     return rep.finish(
-        checker_cmd="make -C coq Props/C08.vo (coq_makefile, coqc 8.16.1) after regenerating coq/Gen/GenHashes.v and coq/Gen/GenStoreConsts.v from /repo/src/halmos/{hashes,utils,sevm}.py",
+        checker_cmd="make -C coq Props/C08.vo (coq_makefile, coqc 8.16.1) after regenerating coq/Gen/GenHashes.v, coq/Gen/GenStoreConsts.v and coq/Gen/GenStoreAxioms.v from /repo/src/halmos/{hashes,utils,sevm}.py",
         trusted_base=common.TRUSTED_BASE_COMMON,
         assumptions=ASSUMPTIONS,
         partial=PARTIAL,
-        rule="L1: groups of 3-6 storage locations over one random Solidity layout (scalars, struct members, mappings with 256-bit and 8..512-bit keys, dynamic arrays, nestings), each in a random spelling (run-time hash term, registered/unregistered hash constant, constant folded with an offset, biased by -1, reordered / nested / n-ary additions), one shared KeccakRegistry; keys and indices are constants or variables valued in {0,1,2,3} (colliding) and boundary/random words; every location is decoded by the real SolidityStorage.get_key_structure and GenericStorage.decode and by the extracted model (structure compared exactly, keys by value), and every pair is checked against the EVM value (aliasing / recognition). A group is non-trivial when it has >= 2 locations not all plain constants. OffsetMap: random key sets with neighbours in the same / adjacent buckets; Exec.select: all oracle scripts over chains up to length 4 (quick) / 6. L2: SSTORE/SLOAD/TSTORE/TLOAD programs over such locations run by the real SEVM in both layouts, load results evaluated under 6 valuations vs a flat dict; non-trivial when a load follows a store.",
+        rule="L1: groups of 3-6 storage locations over one random Solidity layout (scalars, struct members, mappings with 256-bit and 8..512-bit keys, dynamic arrays, nestings), each in a random spelling (run-time hash term, registered/unregistered hash constant, constant folded with an offset, biased by -1, reordered / nested / n-ary additions), one shared KeccakRegistry; keys and indices are constants or variables valued in {0,1,2,3} (colliding) and boundary/random words; every location is decoded by the real SolidityStorage.get_key_structure and GenericStorage.decode and by the extracted model (structure compared exactly, keys by value), and every pair is checked against the EVM value (aliasing / recognition). A group is non-trivial when it has >= 2 locations not all plain constants. L1d: sequences of 4-9 sstore/sload (or tstore/tload) over mapping / nested-mapping / array / scalar locations with constant, symbolic and offset keys issued on a real Exec, in both layouts, non-symbolic and symbolic accounts, compared with the extracted path-side model (returned terms, axioms in ex.path) and, for non-symbolic accounts, evaluated under 4 colliding valuations x {all-zero, adversarial} initial arrays against a flat dict; non-trivial when a store precedes >= 2 loads. OffsetMap: random key sets with neighbours in the same / adjacent buckets; Exec.select: all oracle scripts over chains up to length 4 (quick) / 6. L2: SSTORE/SLOAD/TSTORE/TLOAD programs over such locations run by the real SEVM in both layouts, load results evaluated under 6 valuations x {all-zero initial arrays, initial arrays non-zero wherever the path has no emptiness axiom} vs a flat dict; non-trivial when a load follows a store.",
     )
 
 
@@ -917,6 +1020,13 @@ def replay(rep, body):
             g["reg"] = [tuple(x) for x in g["reg"]]
             print("implementation:", impl_group(g))
             print("EVM values     :", [[L.spec_eval(t, env) for env in g["envs"]] for t in g["locs"]])
+        if "path" in case:
+            c = dict(case["path"])
+            c["ops"] = [tuple(_tuplify(x) if isinstance(x, list) else x for x in op) for op in c["ops"]]
+            x = CP.real_pathrun(c, L)
+            print("ops:", c["ops"], "layout", c["layout"], "symbolic", c["sym"], "transient", c.get("transient"))
+            print("implementation: results", x["results"], "path", x["path"])
+            print("spec failures :", x["spec_fails"])
         if "l2" in case:
             p = dict(case["l2"])
             p["ops"] = [tuple(_tuplify(x) if isinstance(x, list) else x for x in op) for op in p["ops"]]
